@@ -5,7 +5,9 @@ Property theorems only; helper lemmas are in Proofs/CRC.lean.
 -/
 import Astits.Proofs.CRC
 import Astits.Generated.CRC
+import Astits.Props.TieTactics
 namespace Astits.C10
+open Astits.Tie
 
 /-! #### tie: the Go source of today is the model -/
 
@@ -22,16 +24,66 @@ theorem table_length : Generated.crcTable.length = 256 := by rw [table_eq]; simp
 
 theorem generated_init : Generated.crcInit = crcInit := by decide
 
-/-- the loop body of `updateCRC32` as written in Go equals the model's step -/
-theorem generated_step (c : BitVec 32) (b : Nat) :
-    Generated.crcStep c (BitVec.ofNat 32 b) = crcStep c b := by
+/-- a lookup in the Go table at an index `i` below 256 is the model's table entry of `j`, if `i` and `j` are the
+same number (both conditions as one Bool, so that they can be evaluated for all inputs at once) -/
+theorem table_lookup {w : Nat} (i : BitVec w) (j : BitVec 32)
+    (h : (Nat.blt i.toNat 256 && Nat.beq i.toNat j.toNat) = true) :
+    Generated.crcTable.getD i.toNat 0#32 = crcTableEntry j := by
+  simp only [Bool.and_eq_true, Nat.blt_eq] at h
+  have hij : i.toNat = j.toNat := Nat.eq_of_beq_eq_true h.2
+  have hj : BitVec.ofNat 32 i.toNat = j := by
+    rw [hij]; apply BitVec.eq_of_toNat_eq; simp
+  rw [← hj]
+  exact table_correct ⟨i.toNat, h.1⟩
+
+theorem xor_congr_left (a x y : BitVec 32) (h : x = y) : a ^^^ x = a ^^^ y := by rw [h]
+theorem xor_congr_right (a x y : BitVec 32) (h : x = y) : x ^^^ a = a ^^^ y := by rw [h, BitVec.xor_comm]
+
+/-- the top byte of the register -/
+theorem top_byte (c : BitVec 32) : ∃ h : Nat, h < 256 ∧ c >>> 24 = BitVec.ofNat 32 h := by
+  refine ⟨(c >>> 24).toNat, ?_, ?_⟩
+  · rw [BitVec.toNat_ushiftRight, Nat.shiftRight_eq_div_pow]; have := c.isLt; omega
+  · simp only [BitVec.ofNat_toNat, BitVec.setWidth_eq]
+
+/-- only the low eight bits of the byte argument of the model's step matter -/
+theorem crcStep_mod (c : BitVec 32) (b : Nat) : crcStep c b = crcStep c (b % 256) := by
+  unfold crcStep
+  congr 2
+  apply BitVec.eq_of_toNat_eq
+  simp only [BitVec.toNat_and, BitVec.toNat_xor, BitVec.toNat_ofNat]
+  have h255 : 255 % 2 ^ 32 = 2 ^ 8 - 1 := by decide
+  rw [h255, Nat.and_two_pow_sub_one_eq_mod, Nat.and_two_pow_sub_one_eq_mod, Nat.xor_mod_two_pow,
+    Nat.xor_mod_two_pow (b := b % 256 % 2 ^ 32)]
+  congr 1
+  omega
+
+/-- the loop body of `updateCRC32` as written in Go (possibly through a helper function, with the table index
+computed on 32 or on 8 bits) equals the model's step.  The proof does not look at how the index is written: it is a
+function of the top byte `h` of the register and the input byte `b`, and the side condition of `table_lookup` (the
+index is below 256 and it is the model's index) is evaluated for all 65536 pairs `(h, b)`. -/
+theorem generated_step_byte (c : BitVec 32) (b : Nat) (hb : b < 256) :
+    Generated.crcStep c (BitVec.ofNat 8 b) = crcStep c b := by
   unfold Generated.crcStep crcStep
-  have hlt : ((c >>> 24 ^^^ BitVec.ofNat 32 b) &&& 255#32).toNat < 256 := by
-    rw [BitVec.toNat_and]
-    exact Nat.lt_of_le_of_lt Nat.and_le_right (by decide)
-  have := table_correct ⟨_, hlt⟩
-  simp only [BitVec.ofNat_toNat, BitVec.setWidth_eq] at this
-  rw [this]
+  obtain ⟨h, hlt, hh⟩ := top_byte c
+  simp only [hh]
+  clear hh
+  -- `(c <<< 8) ^^^ table[…]`, in either order of the operands
+  first
+    | apply xor_congr_left
+    | apply xor_congr_right
+  apply table_lookup
+  revert b
+  revert h
+  refine forall_lt_pairs ?_
+  decide +kernel
+
+/-- the same for every natural number taken as a byte (Go's `byte`: the low eight bits) -/
+theorem generated_step (c : BitVec 32) (b : Nat) :
+    Generated.crcStep c (BitVec.ofNat 8 b) = crcStep c b := by
+  have hb : BitVec.ofNat 8 b = BitVec.ofNat 8 (b % 256) := by
+    apply BitVec.eq_of_toNat_eq; simp
+  rw [crcStep_mod, hb]
+  exact generated_step_byte c (b % 256) (Nat.mod_lt _ (by decide))
 
 /-! #### the property -/
 
